@@ -215,13 +215,20 @@ def _alarm_handler(signum, frame):
 
 @contextlib.contextmanager
 def watchdog(seconds: int):
-    old = signal.signal(signal.SIGALRM, _alarm_handler)
-    signal.alarm(max(1, int(seconds)))
+    """Per-item watchdog in CPU seconds of this process (ITIMER_PROF counts user +
+    system time, Z3's C code included), so that a loaded machine does not turn
+    cheap cases into time-outs; a generous wall-clock alarm (10x) backs it up."""
+    old_prof = signal.signal(signal.SIGPROF, _alarm_handler)
+    old_alrm = signal.signal(signal.SIGALRM, _alarm_handler)
+    signal.setitimer(signal.ITIMER_PROF, max(1.0, float(seconds)))
+    signal.alarm(max(10, int(seconds) * 10))
     try:
         yield
     finally:
+        signal.setitimer(signal.ITIMER_PROF, 0)
         signal.alarm(0)
-        signal.signal(signal.SIGALRM, old)
+        signal.signal(signal.SIGPROF, old_prof)
+        signal.signal(signal.SIGALRM, old_alrm)
 
 
 def exc_tag(exc: BaseException) -> str:
@@ -335,11 +342,22 @@ def _init_worker():
     os.close(devnull)
 
 
+def preload() -> None:
+    """Import ISLa (2-3 CPU seconds) once in the parent so that forked workers
+    share the loaded modules instead of importing them 16 times under load."""
+    quiet_isla()
+    import isla.evaluator  # noqa: F401
+    import isla.isla_predicates  # noqa: F401
+    import isla.language  # noqa: F401
+    import bounded.refeval  # noqa: F401
+
+
 def run_pool(worker: Callable, items: Sequence, processes: int = 16, chunksize: int = 1):
     """``worker(item)`` for every item, results in item order.  ``worker`` must be a
     top-level function and put its own watchdog around solver-ish calls."""
     if not items:
         return []
+    preload()
     procs = max(1, min(processes, len(items), os.cpu_count() or 1))
     ctx = multiprocessing.get_context("fork")
     with ctx.Pool(procs, initializer=_init_worker) as pool:
